@@ -86,11 +86,11 @@ func loadPools() {
 		return
 	}
 	for _, d := range dmodel.Dialects {
-		pools[d] = dmodel.Pool(d)
+		pools[d] = append(dmodel.Pool(d), dmodel.CasePool(d)...)
 		for _, m := range pools[d] {
 			poolIdx[string(d)+"/"+m.Name] = m
 			byID := map[string]dmodel.Edit{}
-			for _, e := range dmodel.Catalogue(m) {
+			for _, e := range dmodel.CatalogueAll(m) {
 				byID[e.ID] = e
 			}
 			poolCat[string(d)+"/"+m.Name] = byID
@@ -555,7 +555,7 @@ func generate(c *rt.Ctx) []Case {
 				id("genname", srcs(1), "schema", nil)
 			}
 			// exhaustive single-edit slice, both directions.
-			for ei, e := range dmodel.Catalogue(m) {
+			for ei, e := range dmodel.CatalogueAll(m) {
 				cs := Case{Dialect: string(d), Model: m.Name, Class: "single", Edits: []string{e.ID}, Src: esrc(ei), API: "schema"}
 				cases = append(cases, cs)
 				rev := cs
@@ -600,7 +600,7 @@ func drawWalk(cs Case) (Case, *dmodel.Model) {
 	var ids []string
 	var fin *dmodel.Model
 	for try := 0; try < 8; try++ {
-		ids, _, fin = dmodel.RandomEdits(m, cs.Walk.K, r)
+		ids, _, fin = dmodel.RandomEditsAll(m, cs.Walk.K, r)
 		if dmodel.Ambiguous(m, fin) == "" && dmodel.Ambiguous(fin, m) == "" {
 			break
 		}
@@ -630,7 +630,7 @@ func run(c *rt.Ctx) {
 	// catalogue's descriptors must equal the reference differ's (a disagreement is a harness bug).
 	for _, d := range dmodel.Dialects {
 		for _, m := range pools[d] {
-			for _, e := range dmodel.Catalogue(m) {
+			for _, e := range dmodel.CatalogueAll(m) {
 				em := e.Apply(m)
 				if dmodel.Ambiguous(m, em) != "" {
 					c.Violation("HARNESS|catalogue-edit-ambiguous", fmt.Sprintf("%s/%s %s: %s", d, m.Name, e.ID, dmodel.Ambiguous(m, em)), nil, nil)
